@@ -1,6 +1,7 @@
 package govc
 
 import (
+	"go/ast"
 	"go/types"
 	"strings"
 
@@ -111,6 +112,7 @@ func (p *Program) instrWrites(fn *ssa.Function, ins ssa.Instruction, w map[strin
 		p.addrKey(fn, i.Addr, w)
 	case *ssa.MapUpdate:
 		w[mapKeyName(i.Map.Type())] = true
+		p.tokenTableWrites(i.Map, w)
 	case *ssa.Call:
 		p.callWrites(fn, &i.Call, w)
 	case *ssa.Defer:
@@ -124,8 +126,85 @@ func (p *Program) instrWrites(fn *ssa.Function, ins ssa.Instruction, w map[strin
 	}
 }
 
+// ghostKey names the ghost component a ghostset/ghostat target writes.
+func ghostKey(lhs ast.Expr) string {
+	call, ok := lhs.(*ast.CallExpr)
+	if !ok {
+		return ""
+	}
+	id, ok := call.Fun.(*ast.Ident)
+	if !ok {
+		return ""
+	}
+	switch {
+	case strings.HasPrefix(id.Name, "ggv_"):
+		return "ghost.globalv." + id.Name[4:]
+	case strings.HasPrefix(id.Name, "ggb_"):
+		return "ghost.global." + id.Name[4:]
+	case strings.HasPrefix(id.Name, "gg_"):
+		return "ghost.global." + id.Name[3:]
+	case strings.HasPrefix(id.Name, "gv_"):
+		return "ghost.v." + id.Name[3:]
+	case strings.HasPrefix(id.Name, "gf_"), strings.HasPrefix(id.Name, "gb_"):
+		return "ghost." + id.Name[3:]
+	}
+	return ""
+}
+
+// specGhostWrites: ghost components a contracted callee updates (its ghostset / ghostat / consumes clauses).
+func (p *Program) specGhostWrites(name string, w map[string]bool) {
+	if p.Spec == nil {
+		return
+	}
+	fs, ok := p.Spec.Funcs[name]
+	if !ok {
+		return
+	}
+	for _, cs := range fs.EffectiveCases() {
+		for _, cl := range cs.Clauses {
+			switch cl.Kind {
+			case "ghostset", "ghostat":
+				if k := ghostKey(cl.Lhs); k != "" {
+					w[k] = true
+				}
+			case "consumes":
+				if k := ghostKey(cl.Expr); k != "" {
+					w[k] = true
+				}
+			}
+		}
+	}
+}
+
+func (p *Program) tokenTableWrites(mv ssa.Value, w map[string]bool) {
+	if p.Spec == nil {
+		return
+	}
+	key := staticFieldKey(mv)
+	if tk, ok := p.Spec.TokenTables[key]; ok {
+		w["ghost."+tk] = true
+		if sl := p.Spec.TokenSlots[key]; sl != "" {
+			w["ghost.v."+sl] = true
+		}
+	}
+}
+
+// staticFieldKey: "Type.field" when v is a load of a struct field.
+func staticFieldKey(v ssa.Value) string {
+	if u, ok := v.(*ssa.UnOp); ok {
+		v = u.X
+	}
+	if fa, ok := v.(*ssa.FieldAddr); ok {
+		pt := fa.X.Type().Underlying().(*types.Pointer)
+		st := pt.Elem().Underlying().(*types.Struct)
+		return typeName(pt.Elem()) + "." + st.Field(fa.Field).Name()
+	}
+	return ""
+}
+
 func (p *Program) callWrites(fn *ssa.Function, c *ssa.CallCommon, w map[string]bool) {
 	if c.IsInvoke() {
+		p.specGhostWrites(typeName(c.Value.Type())+"."+c.Method.Name(), w)
 		// union over in-repo implementations
 		for _, impl := range p.Implementations(c.Value.Type(), c.Method) {
 			for k := range p.Writes(impl) {
@@ -145,10 +224,12 @@ func (p *Program) callWrites(fn *ssa.Function, c *ssa.CallCommon, w map[string]b
 			}
 		case "delete":
 			w[mapKeyName(c.Args[0].Type())] = true
+			p.tokenTableWrites(c.Args[0], w)
 		case "close":
 			w["Chan.closed"] = true
 		}
 	case *ssa.Function:
+		p.specGhostWrites(p.SpecName(callee), w)
 		p.calleeWrites(fn, callee, c.Args, w)
 	case *ssa.MakeClosure:
 		if f, ok := callee.Fn.(*ssa.Function); ok {
